@@ -193,6 +193,9 @@ func (w *world) config(gen int, name, fail string) string {
 	early, late := -1, -1
 	if fail == "early" {
 		early = w.rnd.Intn(3)
+		if early == 2 && w.h.Table[name][0][0].Kind != "log" {
+			early = 1 // the surplus argument goes to the first sink, which must be a log directive
+		}
 	}
 	if fail == "late" {
 		late = w.rnd.Intn(2)
@@ -673,12 +676,16 @@ func (w *world) account(final bool) {
 					w.bad("no-line-lost", "%s holds an entry of %s written through sink g%d s%d i%d, which does not name this file", f, r.id, g, s, i)
 					continue
 				}
-				if prev, ok := last[r.client]; ok && r.seq < prev {
-					w.bad("per-connection-order", "%s (%s): client %d's entry %d comes after its entry %d", f, o.names[ci], r.client, r.seq, prev)
-				}
-				last[r.client] = r.seq
-				if m, ok := minFound[r.client]; !ok || r.seq < m {
-					minFound[r.client] = r.seq
+				// (a request that was sent again after a connection error may have been handled
+				// twice, the first time late: it has no place in its client's order)
+				if !w.retried[r.id] {
+					if prev, ok := last[r.client]; ok && r.seq < prev {
+						w.bad("per-connection-order", "%s (%s): client %d's entry %d comes after its entry %d", f, o.names[ci], r.client, r.seq, prev)
+					}
+					last[r.client] = r.seq
+					if m, ok := minFound[r.client]; !ok || r.seq < m {
+						minFound[r.client] = r.seq
+					}
 				}
 				k := fmt.Sprintf("%s|%d|%d|%d", r.id, g, s, i)
 				if w.selfDrop && !hidden && !w.seen[k] {
@@ -698,6 +705,9 @@ func (w *world) account(final bool) {
 		lastOf := map[int]int{}
 		for ci, part := range o.chain {
 			for _, r := range part {
+				if w.retried[r.id] {
+					continue
+				}
 				if prev, ok := lastOf[r.client]; ok && r.seq < prev {
 					w.bad("per-connection-order", "%s: client %d's entry %d (in %s) comes after its entry %d", f, r.client, r.seq, o.names[ci], prev)
 				}
@@ -728,7 +738,7 @@ func (w *world) account(final bool) {
 				if isRaw(f) || len(o.chain) == 1 {
 					// a file that is never rotated / has no backup and lost none cannot have lost it to the mill
 					w.bad("no-line-lost", "%s: the request %s was answered (%d, generation %d) but sink s%d i%d has no entry for it", f, id, ri.status, ri.gen, ri.site+1, i+1)
-				} else if m, ok := minFound[c]; ok && m < q {
+				} else if m, ok := minFound[c]; ok && m < q && !w.retried[id] {
 					w.bad("pruned-are-oldest", "%s: the entry of %s is gone although the older entry %d of the same client is still there", f, id, m)
 				}
 			}
@@ -942,6 +952,11 @@ func runHistory(t *testing.T, h hcase, seed int64, tr int, selfDrop bool) outcom
 			}
 			if opErr == nil {
 				w.inst, w.curGen = ni, gen
+				if o.F != "none" {
+					// (TLC would reject the trace at `ret`; the rest of the history has no meaning)
+					w.bad("op-result", "operation %d (%s %s) was scripted to fail at stage %s and succeeded", oi+1, o.T, o.C, o.F)
+					w.genCfg[gen] = o.C
+				}
 			}
 			if oi == 0 && opErr != nil {
 				return outcome{infra: fmt.Sprintf("the first start failed: %v", opErr)}
